@@ -97,8 +97,11 @@ def main():
     meta["ran"] = ["scratch worktree: demo without change, git apply, demo with change, repository suite",
                    "git -C /repo apply patch.diff; ./check %s --tier %s --no-evidence; git -C /repo checkout -- ." % (pid, tier)]
     print(json.dumps(meta, indent=1))
+    name = x.lower()
+    if "--as" in sys.argv:
+        name = sys.argv[sys.argv.index("--as") + 1]
     if keep and confirmed:
-        d = os.path.join(VERIF, "seeded", "%s-%s" % (pid, x.lower()))
+        d = os.path.join(VERIF, "seeded", "%s-%s" % (pid, name))
         os.makedirs(d, exist_ok=True)
         shutil.copy(patch, os.path.join(d, "patch.diff"))
         shutil.copy(demo, os.path.join(d, "demo.py"))
